@@ -283,6 +283,9 @@ def _own_part(ctx, scale, suffix=""):
     co.run_families(ctx, 40 * scale, 20 * scale, 0, c06=False, c07=True, suffix=suffix)
     if cc.e3_available():
         co.run_e3_replace(ctx, min(52, 8 * scale), c06=False, c07=True, suffix=suffix)
+    # the real command line: a shell step that makes a data file and a symbolic link to it, then is dropped
+    co.run_cli_link_pairs(ctx, ["target-sorts-after"] if scale == 1 else ["target-sorts-after", "target-sorts-before"],
+                          suffix=suffix)
 
 
 def oracle(ctx):
